@@ -163,7 +163,11 @@ pub fn worker(
         out.flush().unwrap();
         progress.store(i as u64 + 1, std::sync::atomic::Ordering::Relaxed);
         let t0 = Instant::now();
-        prop.check(u, tier, &mut sink);
+        let r = std::panic::catch_unwind(std::panic::AssertUnwindSafe(|| prop.check(u, tier, &mut sink)));
+        if r.is_err() {
+            // a panic in the harness itself (subject panics are caught inside fmt::run_format)
+            writeln!(out, "{}", json!({"t": "hp", "i": i, "msg": crate::fmt::last_panic()})).unwrap();
+        }
         sink.count("units", 1);
         if let Ok(p) = std::env::var("VERIF_SLOWLOG") {
             let dt = t0.elapsed().as_secs_f64();
@@ -288,6 +292,7 @@ pub fn run_sharded(prop_id: &str, tier: Tier, nshards: usize, nunits: usize) -> 
                     let mut distinct = BTreeSet::new();
                     let mut crashed: Vec<usize> = vec![];
                     let mut timeouts: Vec<usize> = vec![];
+                    let mut harness_panics = 0usize;
                     let mut skip: Vec<usize> = vec![];
                     let mut done_upto: Option<usize> = None;
                     loop {
@@ -315,6 +320,14 @@ pub fn run_sharded(prop_id: &str, tier: Tier, nshards: usize, nunits: usize) -> 
                             let Ok(v) = serde_json::from_str::<Value>(&line) else { continue };
                             match v["t"].as_str() {
                                 Some("b") => last_begin = v["i"].as_u64().map(|x| x as usize),
+                                Some("hp") => {
+                                    eprintln!(
+                                        "[vh] HARNESS PANIC on unit {}: {}",
+                                        v["i"],
+                                        v["msg"].as_str().unwrap_or("")
+                                    );
+                                    harness_panics += 1;
+                                }
                                 Some("timeout") => {
                                     if let Some(i) = v["i"].as_u64() {
                                         timeouts.push(i as usize);
@@ -366,6 +379,9 @@ pub fn run_sharded(prop_id: &str, tier: Tier, nshards: usize, nunits: usize) -> 
                                 break;
                             }
                         }
+                    }
+                    if harness_panics > 0 {
+                        crashed.push(usize::MAX);
                     }
                     (violations, counters, samples, distinct, crashed, timeouts)
                 })
